@@ -211,30 +211,54 @@ func generate(p *Program, cs *ContractSet, prop string, only string) *genOutput 
 		fr := &funcReport{Key: key, Level: con.Level, Modes: modes}
 		fr.File = shortFile(p.Prog.Fset.Position(fn.Pos()).Filename)
 		for mi, mode := range modes {
-			ctx := newCtx(p, cs, fn.Pkg.Pkg, mode)
-			ctx.opaque = map[string]bool{}
-			for _, o := range con.Opaque {
-				ctx.opaque[o] = true
-			}
-			g := newGen(ctx, fn, con)
-			func() {
-				defer func() {
-					if r := recover(); r != nil {
-						switch e := r.(type) {
+			// Heap names are registered when first touched, and a call havocs the heaps registered so
+			// far: the function is therefore generated until the set of heap names is stable (normally
+			// twice), so that every call havocs every heap the function or its contract speaks about -
+			// also one whose first read comes after the call.
+			var ctx *Ctx
+			var g *Gen
+			var seed map[string]string
+			for pass := 0; pass < 4; pass++ {
+				ctx = newCtx(p, cs, fn.Pkg.Pkg, mode)
+				ctx.opaque = map[string]bool{}
+				for _, o := range con.Opaque {
+					ctx.opaque[o] = true
+				}
+				ctx.heapSortsM = map[string]string{}
+				for k, v := range seed {
+					ctx.heapSortsM[k] = v
+				}
+				g = newGen(ctx, fn, con)
+				var perr any
+				func() {
+					defer func() {
+						if r := recover(); r != nil {
+							switch r.(type) {
+							case transError, bindError, specError:
+								perr = r
+							default:
+								panic(r)
+							}
+						}
+					}()
+					g.run()
+				}()
+				if len(ctx.heapSortsM) == len(seed) || pass == 3 {
+					if perr != nil {
+						switch e := perr.(type) {
 						case transError:
 							out.errs = append(out.errs, key+": "+e.msg)
 						case bindError:
 							out.binds = append(out.binds, key+": "+e.msg)
 						case specError:
 							out.binds = append(out.binds, key+": "+e.msg)
-						default:
-							panic(r)
 						}
 						g.obls = nil
 					}
-				}()
-				g.run()
-			}()
+					break
+				}
+				seed = ctx.heapSortsM
+			}
 			for _, o := range g.obls {
 				// obligations restricted to a mode keep it in their name when several modes run
 				if len(modes) > 1 {
